@@ -71,6 +71,8 @@ static void vp_random(vrng* r, vparams* P, unsigned flags)
     }
     {   int o = 0; for (int i = 0; i < P->n && o < (int)sizeof(P->desc) - 16; i++) o += snprintf(P->desc + o, sizeof(P->desc) - (size_t)o, "%s%d=%d", i ? "," : "", (int)P->p[i], P->v[i]); }
 }
+/* keep only the level (used to bound memory): derived fields are reset with the list */
+static void vp_level_only(vparams* P) { int const l = P->level; memset(P, 0, sizeof *P); P->level = l; P->contentSize = 1; vp_add(P, ZSTD_c_compressionLevel, l); snprintf(P->desc, sizeof P->desc, "%d=%d", (int)ZSTD_c_compressionLevel, l); }
 /* returns 0, or the first error code from a setter (a rejected set is an accepted outcome: caller skips the case) */
 static size_t vp_apply(ZSTD_CCtx* c, const vparams* P)
 {
